@@ -145,10 +145,39 @@ def coq_make(targets, timeout=2400):
     return rc == 0, out
 
 
-def forbidden_scan():
-    """list of (file, line, text) for forbidden vernacular anywhere in the development"""
+def dep_cone(prop_file):
+    """the .v files Props/<prop_file>.v transitively depends on (from coq_makefile's .Makefile.d,
+    which make refreshes); None when it cannot be determined (then the whole development is scanned)"""
+    try:
+        deps = {}
+        for line in open(os.path.join(COQ, ".Makefile.d")):
+            if ":" not in line:
+                continue
+            lhs, rhs = line.split(":", 1)
+            tgt = lhs.split()[0]
+            if tgt.endswith(".vo"):
+                deps[tgt[:-1]] = [d[:-1] for d in rhs.split() if d.endswith(".vo")]
+        root = "theories/Props/%s.v" % prop_file
+        if root not in deps:
+            return None
+        seen, todo = set(), [root]
+        while todo:
+            f = todo.pop()
+            if f in seen:
+                continue
+            seen.add(f)
+            todo.extend(deps.get(f, []))
+        return seen
+    except OSError:
+        return None
+
+
+def forbidden_scan(only=None):
+    """list of (file, line, text) for forbidden vernacular in the development (or in the files of `only`)"""
     bad = []
     for f in coq_files():
+        if only is not None and f not in only:
+            continue
         if f.startswith("theories/Generated/"):
             pass
         txt = open(os.path.join(COQ, f)).read()
@@ -518,9 +547,14 @@ def proof_stage(ctx):
     """common first stage of every check: forbidden-word scan + property theorems.
     A broken proof is recorded; the caller still runs correspondence and search, and
     finish_with_proof() turns an unexplained break into `no-failing-input-found`."""
-    bad = forbidden_scan()
     proof = props_check(ctx.prop)
+    # the property file and everything it (transitively) requires must be free of Admitted/Axiom/...;
+    # files of other properties are scanned by those properties' checks
+    cone = dep_cone(ctx.prop)
+    bad = forbidden_scan(cone)
     proof["forbidden"] = bad
+    proof["scanned_files"] = len(cone) if cone is not None else len(coq_files())
+    ctx.coverage["proof_files_scanned"] = proof["scanned_files"]
     if bad:
         proof["ok"] = False
     if proof["ok"] and not ctx.quick():
